@@ -56,6 +56,9 @@ pub struct Report {
     pub machinery_errors: Vec<String>,
     /// replay mode: no evidence is written
     pub replay_mode: bool,
+    /// sink mode: violations and machinery notes are dropped silently (host explorers running on
+    /// behalf of another check's universal oracle)
+    pub sink: bool,
 }
 
 impl Report {
@@ -104,6 +107,7 @@ impl Report {
             known_hit: BTreeSet::new(),
             machinery_errors: Vec::new(),
             replay_mode: false,
+            sink: false,
         }
     }
 
@@ -130,6 +134,9 @@ impl Report {
         }
     }
     pub fn machinery(&mut self, what: String) {
+        if self.sink {
+            return;
+        }
         eprintln!("MACHINERY {}: {}", self.prop, what);
         if self.machinery_errors.len() < 50 {
             self.machinery_errors.push(what);
@@ -140,6 +147,9 @@ impl Report {
     /// only one replay is written per class key and at most 25 keys are reported.
     /// Returns true if it is new (not a listed known finding, not a duplicate).
     pub fn violation(&mut self, class_key: &str, what: &str, case: Value) -> bool {
+        if self.sink {
+            return false;
+        }
         if let Some((k, w)) = self.known.iter().find(|(k, _)| k == class_key) {
             if self.known_hit.insert(k.clone()) {
                 println!("KNOWN-FINDING: property={} {} [{}]", self.prop, w, k);
